@@ -12,7 +12,7 @@ import (
 func init() {
 	register(stream{
 		name: "command",
-		rule: "parser: every string of length ≤ N over {/,a,b,A} (N=5 quick, 7 thorough) plus random UTF-8/binary strings; covers/segments: every ordered pair of the valid ones of length ≤ M (M=5 quick, 6 thorough); join: every valid base × every list of ≤ 3 segments over {\"\",a,b,ab}. Added later: the slice Segments() returns is overwritten and appended to, then asked again; Join on a slice with spare capacity leaves it unchanged and answers the same twice; text assembled by New/Join stays refused by Parse/IsValid/constructors; constructors and sealing keep /a//b and //a byte for byte. Non-trivial = parser cases that pass the leading-slash test, covers pairs where one string is a textual prefix of the other, all segments/join cases. Distinct = distinct protocol lines.",
+		rule: "parser: every string of length ≤ N over {/,a,b,A} (N=5 quick, 7 thorough) plus random UTF-8/binary strings; covers/segments: every ordered pair of the valid ones of length ≤ M (M=5 quick, 6 thorough); join: every valid base × every list of ≤ 3 segments over {\"\",a,b,ab}. Added later: the slice Segments() returns is overwritten and appended to, then asked again; Join on a slice with spare capacity leaves it unchanged and answers the same twice; text assembled by New/Join stays refused by Parse/IsValid/constructors; constructors and sealing keep /a//b and //a byte for byte. Covers and Segments on commands whose segments are *, **, ., .., ~, ?, empty: ordinary segments. Non-trivial = parser cases that pass the leading-slash test, covers pairs where one string is a textual prefix of the other, all segments/join cases. Distinct = distinct protocol lines.",
 		run:  runCommandStream,
 		eval: evalCommand,
 		// C15 fixes WHICH strings the parser accepts and what it returns for them, not which of several applicable errors a refused
@@ -181,6 +181,34 @@ func runCommandStream(c *ctx) error {
 			c.emitG("cmd.covers "+hxs(x)+" "+hxs(y), "command.Covers",
 				func(string) bool { return strings.HasPrefix(y, x) },
 				func(g string) []string { return []string{"covers-multibyte:" + g[:1]} })
+		}
+	}
+	// covers on commands whose segments are spelled with characters that mean something in OTHER notations (a glob star, dots,
+	// a tilde, an empty segment): here they are ordinary segments — a command covers exactly the commands it is a segment-wise
+	// prefix of, and two commands that cover each other are the same command
+	{
+		segs := []string{"crud", "*", "**", ".", "..", "~", "", "c*", "?"}
+		odd := []string{"/"}
+		for _, a := range segs {
+			odd = append(odd, "/"+a)
+			for _, b := range segs[:6] {
+				odd = append(odd, "/"+a+"/"+b)
+			}
+		}
+		odd = append(odd, "/crud/create", "/crud/*/x", "/*/crud", "/crud/create/*")
+		for _, x := range odd {
+			if strings.HasSuffix(x, "/") && x != "/" {
+				continue
+			}
+			c.emit("cmd.segments "+hxs(x), "command.Segments", true, "segments-odd")
+			for _, y := range odd {
+				if strings.HasSuffix(y, "/") && y != "/" {
+					continue
+				}
+				c.emitG("cmd.covers "+hxs(x)+" "+hxs(y), "command.Covers",
+					func(string) bool { return strings.HasPrefix(y, x) },
+					func(g string) []string { return []string{"covers-odd:" + g[:1]} })
+			}
 		}
 	}
 	// covers + segments on all pairs of valid commands
